@@ -208,10 +208,27 @@ def check_property(prop, tier, seed, verbose=False):
             if err:
                 undecided.append('%s: %s' % (uc['unit'], err)); continue
             runs.append((uc, ur))
+    # known findings of this property may be pinned by other units: they PROVE that the code still behaves
+    # exactly as recorded in the finding; if a pin fails, nothing is known any more and every failure counts
+    pins_ok = True
+    for uc, ur in runs:
+        if uc.get('role') == 'pin':
+            und_p, failed_p = unit_verdict(ur)
+            if und_p or failed_p: pins_ok = False
+    if not pins_ok:
+        known = [k for k in known if not k.get('pinned')]
+        cover['known_finding_pins'] = 'FAILED: pinned known findings are not applied'
     for uc, ur in runs:
         und, failed = unit_verdict(ur)
         undecided += ['%s: %s' % (uc['unit'], u) for u in und]
         res = ur.res
+        if uc.get('role') == 'pin':
+            # a pin unit belongs to another property: its failures are reported there, not here
+            cover['units'].append({'unit': uc['unit'], 'role': 'pin for known findings', 'verified_queries': ur.res.verified,
+                                   'failed': [o.name for o in failed]})
+            cover['obligations'] += ur.res.verified + len(failed); cover['discharged'] += ur.res.verified
+            cmds.append(ur.res.cmd + '   (cwd build/%s, pin)' % uc['unit'])
+            continue
         relevant = [o for o in failed if _matches_filter(o, uc.get('labels'))]
         others = [o for o in failed if o not in relevant]
         cmds.append(res.cmd + '   (cwd build/%s)' % uc['unit'])
@@ -273,8 +290,16 @@ def check_property(prop, tier, seed, verbose=False):
         cover['samples'] = [u['unit'] for u in cover['units']]
     rc = 0
     lines = []
+    seen_k = []
     for k, o in known_hits:
-        lines.append('KNOWN-FINDING: property=%s %s' % (prop, k['what']))
+        if k['what'] not in seen_k:
+            seen_k.append(k['what'])
+            lines.append('KNOWN-FINDING: property=%s %s' % (prop, k['what']))
+    if known_hits:
+        # obligations matched by an OPEN known finding are not claimed: they are listed, and the counts below
+        # cover the obligations that are required to hold on this tree
+        cover['known_finding_obligations_failed'] = sorted({(o.name if hasattr(o, 'name') else o['name']) for _, o in known_hits})
+        cover['obligations'] -= len(known_hits)
     for unit, o, ur in violations:
         if ur is not None:
             w = find_witness(prop, pcfg, o, seed)
